@@ -15,7 +15,9 @@ package main
 // Direct (math/big oracle on the implementation alone): + - * exact (ints) / correctly rounded
 // (floats beyond 34 digits), `/` within half an ulp of 34 digits, Euclidean and truncated
 // identities, order laws on pairs and triples, print → parse round trips (Syntax+format text and
-// JSON text through CompileString again), ParseNum/scanner/CompileString agreement, pkg/math
+// JSON text through CompileString again), shared-operand programs (operands unchanged by
+// evaluation, identities between shared results, stable across contexts), ParseNum/scanner/
+// CompileString agreement, pkg/math
 // contract checks, `cue export` / `cue eval` (in-process CLI) agree with the API, large exponents
 // terminate.
 
@@ -955,7 +957,6 @@ func c06Math(c *Cfg, r *Rng, w *c06Worker, n int) {
 				}
 			}
 		}
-		intDigits := len(new(big.Int).Abs(tr).String())
 		for _, f := range []struct {
 			name string
 			want *big.Int
@@ -964,13 +965,7 @@ func c06Math(c *Cfg, r *Rng, w *c06Worker, n int) {
 			res := run(expr)
 			got, ok := intOf(res)
 			cls := "math-" + strings.ToLower(f.name)
-			if (f.name == "Floor" || f.name == "Ceil") && (intDigits > 34 || x.exp > 0 && len(x.coeff.String())+x.exp > 34) {
-				cls = "math-floor-ceil-over-34-digits"
-			}
 			good := ok && got.Cmp(f.want) == 0
-			if !good && cls == "math-floor-ceil-over-34-digits" {
-				c.Count("known:math-floor-ceil")
-			}
 			c.Direct(good, cls, fmt.Sprintf("%s = %s %s, want %s", expr, res.kind, res.json, f.want), expr)
 			c.Count("math:" + f.name)
 		}
@@ -986,12 +981,6 @@ func c06Math(c *Cfg, r *Rng, w *c06Worker, n int) {
 				}
 			}
 			cls := "math-abs"
-			if c06SigDigits(x.coeff) > 34 {
-				cls = "math-abs-over-34-digits"
-				if !good {
-					c.Count("known:math-abs")
-				}
-			}
 			c.Direct(good, cls, fmt.Sprintf("%s = %s %s", expr, res.kind, res.json), expr)
 		}
 		// Pow of ints with a small non-negative exponent is an exact int
@@ -1241,6 +1230,9 @@ func runC06(c *Cfg) {
 		cases = append(cases, &c06Case{op: t[0], a: c06Int(za), b: c06Int(zb), repr: true})
 	}
 	c06RunCases(c, cases)
+
+	// ---- shared operands: every operator on the same two fields of one program -------------
+	c06Shared(c, r)
 
 	if c.Focus {
 		// failing-input search mode: observable-level arithmetic and literals only
